@@ -245,6 +245,7 @@ def judge(ctx, pid, batch, stats):
         idx = f["i"] - 1
         e = ev[idx]
         v = classify(ev, res, idx, f["mon"])
+        v["conforms"] = f.get("conforms", True)
         if vlib.match_known(pid, v) is None:
             new_per_mon[f["mon"]] += 1
             if new_per_mon[f["mon"]] > 3:
